@@ -180,3 +180,183 @@ package consensus
 //@   ensures @index result.Index.ID == bh.ID() && (genesis ? result.Index.Height == 0 : result.Index.Height == cheight(s))
 //@   ensures @timestamps result.PrevTimestamps[0] == bh.Timestamp && forall k in 1..11 :: result.PrevTimestamps[k] == s.PrevTimestamps[k-1]
 //@   ensures @frame result.Network == s.Network && result.SiafundTaxRevenue == s.SiafundTaxRevenue && result.Attestations == s.Attestations && result.FoundationSubsidyAddress == s.FoundationSubsidyAddress && result.FoundationManagementAddress == s.FoundationManagementAddress && result.Elements == s.Elements
+
+// ------------------------------------------------------------ state.go: MidState accessors
+
+// EB: bound on the value of any single element recorded in a MidState or supplied in a
+// verified supplement (assumption T10: total supply < 2^100 hastings; real supply < 2^97).
+//@ const EB = 2^100
+// NB: bound on the number of inputs/outputs of one transaction (weight limit 2e6 bytes).
+//@ const NB = 2^21
+
+//@ spec scBounded(ms MidState, ts V1TransactionSupplement) bool = (forall j in 0..len(ts.SiacoinInputs) :: types.u128(ts.SiacoinInputs[j].SiacoinOutput.Value) < EB) && (forall j in 0..len(ms.sces) :: types.u128(ms.sces[j].SiacoinElement.SiacoinOutput.Value) < EB)
+
+// msWF: representation invariant of MidState (established by NewMidState, preserved by the
+// Apply* mutators): indices recorded in the shared element index are non-negative.
+//@ spec msWF(ms MidState) bool = forall id types.ElementID :: has(ms.elements, id) ==> ms.elements[id] >= 0
+
+// siacoinElement is a deterministic function of (*ms, ts, id) [purity: C09]; the properties
+// the validators rely on are proved from its body.
+//@ func (*MidState).siacoinElement
+//@   prop C10 C02 C08
+//@   abstract
+//@   requires msWF(*ms)
+//@   ensures @found-id result1 ==> result0.ID == id
+//@   ensures @bounded result1 && scBounded(*ms, ts) ==> types.u128(result0.SiacoinOutput.Value) < EB
+//@   ensures @created-in-block result1 && has(ms.elements, id) && ms.elements[id] >= 0 && ms.elements[id] < len(ms.sces) && ms.sces[ms.elements[id]].SiacoinElement.ID == id ==> result0 == ms.sces[ms.elements[id]].SiacoinElement
+//@   ensures @from-supplement result1 && !has(ms.elements, id) ==> exists j in 0..len(ts.SiacoinInputs) :: ts.SiacoinInputs[j] == result0
+
+// ------------------------------------------------------------ validation.go: v1 siacoins
+
+//@ spec rec sumSCO(s []types.SiacoinOutput, n int) int = n <= 0 ? 0 : sumSCO(s, n-1) + types.u128(s[n-1].Value)
+//@ spec rec sumFCPayout(s []types.FileContract, n int) int = n <= 0 ? 0 : sumFCPayout(s, n-1) + types.u128(s[n-1].Payout)
+//@ spec rec sumCur(s []types.Currency, n int) int = n <= 0 ? 0 : sumCur(s, n-1) + types.u128(s[n-1])
+//@ spec rec sumSCParents(ms MidState, ts V1TransactionSupplement, ins []types.SiacoinInput, n int) int = n <= 0 ? 0 : sumSCParents(ms, ts, ins, n-1) + types.u128(ms.siacoinElement(ts, ins[n-1].ParentID).0.SiacoinOutput.Value)
+
+//@ func validateSiacoins
+//@   prop C08 C02 C03 C01 C10
+//@   requires ms.base.Network != nil
+//@   requires msWF(*ms) && scBounded(*ms, ts) && len(txn.SiacoinInputs) < NB
+//@   requires forall i in 0..len(txn.SiacoinOutputs)+1 :: sumSCO(txn.SiacoinOutputs, i) < types.M128
+//@   requires forall i in 0..len(txn.FileContracts)+1 :: sumSCO(txn.SiacoinOutputs, len(txn.SiacoinOutputs)) + sumFCPayout(txn.FileContracts, i) < types.M128
+//@   requires forall i in 0..len(txn.MinerFees)+1 :: sumSCO(txn.SiacoinOutputs, len(txn.SiacoinOutputs)) + sumFCPayout(txn.FileContracts, len(txn.FileContracts)) + sumCur(txn.MinerFees, i) < types.M128
+//@   ghost k int
+//@   let in = txn.SiacoinInputs[k]
+//@   let par = ms.siacoinElement(ts, txn.SiacoinInputs[k].ParentID)
+//@   invariant loop#1 @inputs-checked 0 <= k && k < $n ==> txn.SiacoinInputs[k].UnlockConditions.Timelock <= cheight(ms.base) && !has(ms.spends, txn.SiacoinInputs[k].ParentID) && ms.siacoinElement(ts, txn.SiacoinInputs[k].ParentID).1 && txn.SiacoinInputs[k].UnlockConditions.UnlockHash() == ms.siacoinElement(ts, txn.SiacoinInputs[k].ParentID).0.SiacoinOutput.Address && ms.siacoinElement(ts, txn.SiacoinInputs[k].ParentID).0.MaturityHeight <= cheight(ms.base)
+//@   invariant loop#1 @input-sum types.u128(inputSum) == sumSCParents(*ms, ts, txn.SiacoinInputs, $n) && types.u128(inputSum) <= $n * EB
+//@   invariant loop#2 @output-sum types.u128(outputSum) == sumSCO(txn.SiacoinOutputs, $n)
+//@   invariant loop#2 @no-overflow $n < len(txn.SiacoinOutputs) ==> sumSCO(txn.SiacoinOutputs, $n + 1) < types.M128
+//@   invariant loop#3 @no-overflow $n < len(txn.FileContracts) ==> sumSCO(txn.SiacoinOutputs, len(txn.SiacoinOutputs)) + sumFCPayout(txn.FileContracts, $n + 1) < types.M128
+//@   invariant loop#4 @no-overflow $n < len(txn.MinerFees) ==> sumSCO(txn.SiacoinOutputs, len(txn.SiacoinOutputs)) + sumFCPayout(txn.FileContracts, len(txn.FileContracts)) + sumCur(txn.MinerFees, $n + 1) < types.M128
+//@   invariant loop#3 @payout-sum types.u128(outputSum) == sumSCO(txn.SiacoinOutputs, len(txn.SiacoinOutputs)) + sumFCPayout(txn.FileContracts, $n)
+//@   invariant loop#4 @fee-sum types.u128(outputSum) == sumSCO(txn.SiacoinOutputs, len(txn.SiacoinOutputs)) + sumFCPayout(txn.FileContracts, len(txn.FileContracts)) + sumCur(txn.MinerFees, $n)
+//@   ensures @M1-timelock result == nil && 0 <= k && k < len(txn.SiacoinInputs) ==> in.UnlockConditions.Timelock <= cheight(ms.base)
+//@   ensures @U1-unspent result == nil && 0 <= k && k < len(txn.SiacoinInputs) ==> !has(ms.spends, in.ParentID)
+//@   ensures @A1-resolvable result == nil && 0 <= k && k < len(txn.SiacoinInputs) ==> par.1 && par.0.ID == in.ParentID
+//@   ensures @K1-unlock-hash result == nil && 0 <= k && k < len(txn.SiacoinInputs) ==> in.UnlockConditions.UnlockHash() == par.0.SiacoinOutput.Address
+//@   ensures @M2-maturity result == nil && 0 <= k && k < len(txn.SiacoinInputs) ==> par.0.MaturityHeight <= cheight(ms.base)
+//@   ensures @B1-balance result == nil ==> sumSCParents(*ms, ts, txn.SiacoinInputs, len(txn.SiacoinInputs)) == sumSCO(txn.SiacoinOutputs, len(txn.SiacoinOutputs)) + sumFCPayout(txn.FileContracts, len(txn.FileContracts)) + sumCur(txn.MinerFees, len(txn.MinerFees))
+
+// ------------------------------------------------------------ hashes and accumulator membership (T9, C04)
+//@ func (*ElementAccumulator).containsChainIndex
+//@   abstract
+//@ func (*ElementAccumulator).containsUnspentSiacoinElement
+//@   abstract
+//@ func (*ElementAccumulator).containsSpentSiacoinElement
+//@   abstract
+//@ func (*ElementAccumulator).containsUnspentSiafundElement
+//@   abstract
+//@ func (*ElementAccumulator).containsSpentSiafundElement
+//@   abstract
+//@ func (*ElementAccumulator).containsUnresolvedFileContractElement
+//@   abstract
+//@ func (*ElementAccumulator).containsUnresolvedV2FileContractElement
+//@   abstract
+//@ func (*ElementAccumulator).containsResolvedV2FileContractElement
+//@   abstract
+//@ func (State).InputSigHash
+//@   abstract
+//@ func (State).ContractSigHash
+//@   abstract
+//@ func (State).RenewalSigHash
+//@   abstract
+//@ func (State).AttestationSigHash
+//@   abstract
+//@ func (State).StorageProofLeafHash
+//@   abstract
+//@ func (State).StorageProofLeafIndex
+//@   abstract
+//@ func storageProofRoot
+//@   abstract
+//@ func (State).Commitment
+//@   abstract
+// FileContractTax uses math/big (and float64 before HardforkTax): uninterpreted here.
+//@ func (State).FileContractTax
+//@   abstract
+
+// ------------------------------------------------------------ state.go: remaining MidState accessors
+//@ spec sfBounded(ms MidState, ts V1TransactionSupplement) bool = (forall j in 0..len(ts.SiafundInputs) :: ts.SiafundInputs[j].SiafundOutput.Value <= 10000) && (forall j in 0..len(ms.sfes) :: ms.sfes[j].SiafundElement.SiafundOutput.Value <= 10000)
+
+//@ func (*MidState).siafundElement
+//@   prop C10 C02 C08
+//@   abstract
+//@   requires msWF(*ms)
+//@   ensures @found-id result1 ==> result0.ID == id
+//@   ensures @bounded result1 && sfBounded(*ms, ts) ==> result0.SiafundOutput.Value <= 10000
+
+//@ func (*MidState).fileContractElement
+//@   prop C10 C02 C07 C08
+//@   abstract
+//@   requires msWF(*ms)
+//@   ensures @found-id result1 ==> result0.ID == id
+
+//@ func (*MidState).storageProofWindowID
+//@   prop C10 C08
+//@   abstract
+//@   requires msWF(*ms)
+//@   ensures @created-in-block result1 && has(ms.elements, id) && ms.elements[id] < len(ms.fces) && ms.fces[ms.elements[id]].FileContractElement.ID == id && ms.fces[ms.elements[id]].FileContractElement.FileContract.WindowStart == cheight(ms.base) ==> result0 == ms.base.Index.ID
+
+// ------------------------------------------------------------ validation.go: v1 siafunds, minimum values
+
+//@ spec rec sumSFO(s []types.SiafundOutput, n int) int = n <= 0 ? 0 : sumSFO(s, n-1) + s[n-1].Value
+//@ spec rec sumSFParents(ms MidState, ts V1TransactionSupplement, ins []types.SiafundInput, n int) int = n <= 0 ? 0 : sumSFParents(ms, ts, ins, n-1) + ms.siafundElement(ts, ins[n-1].ParentID).0.SiafundOutput.Value
+
+//@ func validateSiafunds
+//@   prop C08 C02 C03 C01 C10
+//@   requires ms.base.Network != nil
+//@   requires msWF(*ms) && sfBounded(*ms, ts) && len(txn.SiafundInputs) < NB && len(txn.SiafundOutputs) < NB
+//@   requires forall j in 0..len(txn.SiafundOutputs) :: txn.SiafundOutputs[j].Value <= 10000
+//@   ghost k int
+//@   let in = txn.SiafundInputs[k]
+//@   let par = ms.siafundElement(ts, txn.SiafundInputs[k].ParentID)
+//@   let devOverride = cheight(ms.base) >= ms.base.Network.HardforkDevAddr.Height && par.0.SiafundOutput.Address == ms.base.Network.HardforkDevAddr.OldAddress && in.UnlockConditions.UnlockHash() == ms.base.Network.HardforkDevAddr.NewAddress
+//@   invariant loop#1 @inputs-checked 0 <= k && k < $n ==> txn.SiafundInputs[k].UnlockConditions.Timelock <= cheight(ms.base) && !has(ms.spends, txn.SiafundInputs[k].ParentID) && ms.siafundElement(ts, txn.SiafundInputs[k].ParentID).1 && (txn.SiafundInputs[k].UnlockConditions.UnlockHash() == ms.siafundElement(ts, txn.SiafundInputs[k].ParentID).0.SiafundOutput.Address || (cheight(ms.base) >= ms.base.Network.HardforkDevAddr.Height && ms.siafundElement(ts, txn.SiafundInputs[k].ParentID).0.SiafundOutput.Address == ms.base.Network.HardforkDevAddr.OldAddress && txn.SiafundInputs[k].UnlockConditions.UnlockHash() == ms.base.Network.HardforkDevAddr.NewAddress))
+//@   invariant loop#1 @input-sum inputSum == sumSFParents(*ms, ts, txn.SiafundInputs, $n) && inputSum <= $n * 10000
+//@   invariant loop#2 @output-sum outputSum == sumSFO(txn.SiafundOutputs, $n) && outputSum <= $n * 10000
+//@   ensures @M1-timelock result == nil && 0 <= k && k < len(txn.SiafundInputs) ==> in.UnlockConditions.Timelock <= cheight(ms.base)
+//@   ensures @U1-unspent result == nil && 0 <= k && k < len(txn.SiafundInputs) ==> !has(ms.spends, in.ParentID)
+//@   ensures @A1-resolvable result == nil && 0 <= k && k < len(txn.SiafundInputs) ==> par.1 && par.0.ID == in.ParentID
+//@   ensures @K1-unlock-hash result == nil && 0 <= k && k < len(txn.SiafundInputs) ==> in.UnlockConditions.UnlockHash() == par.0.SiafundOutput.Address || devOverride
+//@   ensures @B2-count-preserved result == nil ==> sumSFParents(*ms, ts, txn.SiafundInputs, len(txn.SiafundInputs)) == sumSFO(txn.SiafundOutputs, len(txn.SiafundOutputs))
+
+//@ func validateMinimumValues
+//@   prop C01 C10
+//@   ghost k int
+//@   invariant loop#1 @z zero || (0 <= k && k < $n ==> types.u128(txn.SiacoinOutputs[k].Value) != 0)
+//@   invariant loop#2 @z zero || ((0 <= k && k < len(txn.SiacoinOutputs) ==> types.u128(txn.SiacoinOutputs[k].Value) != 0) && (0 <= k && k < $n ==> types.u128(txn.FileContracts[k].Payout) != 0))
+//@   invariant loop#3 @z zero || ((0 <= k && k < len(txn.SiacoinOutputs) ==> types.u128(txn.SiacoinOutputs[k].Value) != 0) && (0 <= k && k < len(txn.FileContracts) ==> types.u128(txn.FileContracts[k].Payout) != 0) && (0 <= k && k < $n ==> txn.SiafundOutputs[k].Value != 0))
+//@   invariant loop#4 @z zero || ((0 <= k && k < len(txn.SiacoinOutputs) ==> types.u128(txn.SiacoinOutputs[k].Value) != 0) && (0 <= k && k < len(txn.FileContracts) ==> types.u128(txn.FileContracts[k].Payout) != 0) && (0 <= k && k < len(txn.SiafundOutputs) ==> txn.SiafundOutputs[k].Value != 0) && (0 <= k && k < $n ==> types.u128(txn.MinerFees[k]) != 0))
+//@   ensures @Z1-sc result == nil && 0 <= k && k < len(txn.SiacoinOutputs) ==> types.u128(txn.SiacoinOutputs[k].Value) != 0
+//@   ensures @Z1-fc result == nil && 0 <= k && k < len(txn.FileContracts) ==> types.u128(txn.FileContracts[k].Payout) != 0
+//@   ensures @Z1-sf result == nil && 0 <= k && k < len(txn.SiafundOutputs) ==> txn.SiafundOutputs[k].Value != 0
+//@   ensures @Z1-fee result == nil && 0 <= k && k < len(txn.MinerFees) ==> types.u128(txn.MinerFees[k]) != 0
+
+// ------------------------------------------------------------ validation.go: overflow pre-checks
+
+//@ spec fcAll(fc types.FileContract) int = types.u128(fc.Payout) + sumSCO(fc.ValidProofOutputs, len(fc.ValidProofOutputs)) + sumSCO(fc.MissedProofOutputs, len(fc.MissedProofOutputs))
+//@ spec revAll(fc types.FileContract) int = sumSCO(fc.ValidProofOutputs, len(fc.ValidProofOutputs)) + sumSCO(fc.MissedProofOutputs, len(fc.MissedProofOutputs))
+//@ spec rec sumFCAll(s []types.FileContract, n int) int = n <= 0 ? 0 : sumFCAll(s, n-1) + fcAll(s[n-1])
+//@ spec rec sumRevAll(s []types.FileContractRevision, n int) int = n <= 0 ? 0 : sumRevAll(s, n-1) + revAll(s[n-1].FileContract)
+//@ spec v1Total(txn types.Transaction) int = sumSCO(txn.SiacoinOutputs, len(txn.SiacoinOutputs)) + sumFCAll(txn.FileContracts, len(txn.FileContracts)) + sumRevAll(txn.FileContractRevisions, len(txn.FileContractRevisions))
+
+//@ func validateCurrencyOverflow
+//@   prop C10 C01
+//@   ghost k int
+//@   invariant loop#1 @sum !overflow ==> types.u128(sum) == sumSCO(txn.SiacoinOutputs, $n)
+//@   invariant loop#2 @sum !overflow ==> types.u128(sum) == sumSCO(txn.SiacoinOutputs, len(txn.SiacoinOutputs))
+//@   invariant loop#2 @sf !overflow && 0 <= k && k < $n ==> txn.SiafundOutputs[k].Value <= 10000
+//@   invariant loop#3 @sum !overflow ==> types.u128(sum) == sumSCO(txn.SiacoinOutputs, len(txn.SiacoinOutputs)) + sumFCAll(txn.FileContracts, $n)
+//@   invariant loop#3 @sf !overflow && 0 <= k && k < len(txn.SiafundOutputs) ==> txn.SiafundOutputs[k].Value <= 10000
+//@   invariant loop#4 @sum !overflow ==> types.u128(sum) == sumSCO(txn.SiacoinOutputs, len(txn.SiacoinOutputs)) + sumFCAll(txn.FileContracts, $n3) + types.u128(fc.Payout) + sumSCO(fc.ValidProofOutputs, $n)
+//@   invariant loop#4 @sf !overflow && 0 <= k && k < len(txn.SiafundOutputs) ==> txn.SiafundOutputs[k].Value <= 10000
+//@   invariant loop#5 @sum !overflow ==> types.u128(sum) == sumSCO(txn.SiacoinOutputs, len(txn.SiacoinOutputs)) + sumFCAll(txn.FileContracts, $n3) + types.u128(fc.Payout) + sumSCO(fc.ValidProofOutputs, len(fc.ValidProofOutputs)) + sumSCO(fc.MissedProofOutputs, $n)
+//@   invariant loop#5 @sf !overflow && 0 <= k && k < len(txn.SiafundOutputs) ==> txn.SiafundOutputs[k].Value <= 10000
+//@   invariant loop#6 @sum !overflow ==> types.u128(sum) == sumSCO(txn.SiacoinOutputs, len(txn.SiacoinOutputs)) + sumFCAll(txn.FileContracts, len(txn.FileContracts)) + sumRevAll(txn.FileContractRevisions, $n)
+//@   invariant loop#6 @sf !overflow && 0 <= k && k < len(txn.SiafundOutputs) ==> txn.SiafundOutputs[k].Value <= 10000
+//@   invariant loop#7 @sum !overflow ==> types.u128(sum) == sumSCO(txn.SiacoinOutputs, len(txn.SiacoinOutputs)) + sumFCAll(txn.FileContracts, len(txn.FileContracts)) + sumRevAll(txn.FileContractRevisions, $n6) + sumSCO(fcr.FileContract.ValidProofOutputs, $n)
+//@   invariant loop#7 @sf !overflow && 0 <= k && k < len(txn.SiafundOutputs) ==> txn.SiafundOutputs[k].Value <= 10000
+//@   invariant loop#8 @sum !overflow ==> types.u128(sum) == sumSCO(txn.SiacoinOutputs, len(txn.SiacoinOutputs)) + sumFCAll(txn.FileContracts, len(txn.FileContracts)) + sumRevAll(txn.FileContractRevisions, $n6) + sumSCO(fcr.FileContract.ValidProofOutputs, len(fcr.FileContract.ValidProofOutputs)) + sumSCO(fcr.FileContract.MissedProofOutputs, $n)
+//@   invariant loop#8 @sf !overflow && 0 <= k && k < len(txn.SiafundOutputs) ==> txn.SiafundOutputs[k].Value <= 10000
+//@   ensures @O1-total result == nil ==> v1Total(txn) < types.M128
+//@   ensures @O1-siafunds result == nil && 0 <= k && k < len(txn.SiafundOutputs) ==> txn.SiafundOutputs[k].Value <= 10000
